@@ -30,14 +30,46 @@ def tlc_props(consts, invariants, properties=(), view="StateView", timeout=1800,
     return r
 
 
-def generate(tag, consts, view=None, simulate=None, depth=None, seed=None, timeout=3600, sample=None, rng=None):
+def random_shapes(rng, count, n, never, p_last=0.5, p_leaf=0.25, p_orphan=0.06):
+    """Tree shapes biased towards long branches that fork again: parent = the newest header, a leaf, or any header."""
+    shapes = []
+    for _ in range(count):
+        par, children = [], {0: 0}
+        for i in range(1, n + 1):
+            r = rng.random()
+            leaves = [x for x in children if children[x] == 0]
+            if r < p_orphan:
+                p = never
+            elif r < p_orphan + p_last and i > 1 and par[-1] != never:
+                p = i - 1
+            elif r < p_orphan + p_last + p_leaf and leaves:
+                p = rng.choice(leaves)
+            else:
+                p = rng.choice(list(children))
+            par.append(p)
+            if p != never:
+                children[p] = children.get(p, 0) + 1
+            children[i] = 0
+        shapes.append(par)
+    return shapes
+
+
+def generate(tag, consts, view=None, simulate=None, depth=None, seed=None, timeout=3600, sample=None, rng=None, shapes=None):
     """Run TLC in emission mode; returns (jsonl path, count, TlcResult)."""
     d = c.sub("gen")
     cfg = os.path.join(d, tag + ".cfg")
-    c.write_cfg(cfg, "MCSpec", consts, ["EmitInv"], (), view=view)
+    module, extra_files, extra = "MC_Chain", (), None
+    if shapes:
+        # a generated module carries the tree shapes (a configuration file cannot hold tuples)
+        module = "MC_ChainShaped"
+        mp = os.path.join(d, module + ".tla")
+        with open(mp, "w") as f:
+            f.write("---- MODULE %s ----\nEXTENDS MC_Chain\nShapesV == {%s}\n====\n" % (module, ", ".join("<<%s>>" % ", ".join(map(str, sh)) for sh in shapes)))
+        extra_files, extra = (mp,), ["CONSTANT Shapes <- ShapesV"]
+    c.write_cfg(cfg, "MCSpec", consts, ["EmitInv"], (), view=view, extra=extra or ())
     raw = os.path.join(d, tag + ".out")
-    res = c.run_tlc("MC_Chain", cfg, timeout=timeout, simulate=simulate, depth=depth, seed=seed, out_file=raw,
-                    workers=1 if simulate else None)
+    res = c.run_tlc(module, cfg, timeout=timeout, simulate=simulate, depth=depth, seed=seed, out_file=raw,
+                    workers=1 if simulate else None, extra_files=extra_files)
     if not res.ok and not simulate:
         raise c.Infra("generation run %s failed:\n%s" % (tag, res.out[-2000:]))
     out = os.path.join(d, tag + ".jsonl")
